@@ -101,7 +101,7 @@ impl Prop for C19 {
         c.base.simplify().into_iter().map(|base| PathCase { base, neighbour: c.neighbour }).collect()
     }
     fn run(&self, c: &PathCase, ctx: &mut Ctx) -> CheckResult {
-        let o = AnyOpts { unchecked: false, budget: if ctx.thorough { 40 } else { 25 }, iterators: true };
+        let o = AnyOpts::new(false, if ctx.thorough { 40 } else { 25 }, true);
         let seed = c.base.plan_seed();
         ctx.label(&c.base.type_name());
         let digest = |v: &AnyVal, ctx: &mut Ctx| -> Result<u64, crate::runner::Failure> {
